@@ -22,7 +22,6 @@ inductive GOp
   | op (o : TP.Op)
   | endg (j k : Nat)     -- End span slot j; the delivery parks inside OnEnd of (recording) processor k
   | rel                  -- release the gate: the parked End delivers to the rest of its snapshot and returns
-  deriving DecidableEq, Repr
 
 structure GSt where
   st : TP.St
@@ -70,13 +69,6 @@ def grunFrom (g : GSt) : List GOp → List GObs
     { res := x.2.1, parked := x.2.2, snap := fun i => (x.1.st.pool i).cnt } :: grunFrom x.1 r
 
 def grun (kinds : List PKind) (ops : List GOp) : List GObs := grunFrom { st := init kinds } ops
-
-/-- the sequential shadow of a gated script (for `F26_applies`) -/
-def shadow : List GOp → List TP.Op
-  | [] => []
-  | .op o :: r => o :: shadow r
-  | .endg j _ :: r => .end_ j :: shadow r
-  | .rel :: r => shadow r
 
 /-! ## Spec: the reference for gated scripts (recording processors) -/
 
